@@ -210,6 +210,11 @@ func eq(validName string, tv reflect.Value) (eqStr, uintStr, cusMsg string, isEq
 		if tv.Float() != float64(eqInt) {
 			isEq = false
 		}
+	case reflect.Slice:
+		uintStr = sliceLenUnitStr
+		if tv.Len() != eqInt {
+			isEq = false
+		}
 	default:
 		isEq = false
 	}
